@@ -15,6 +15,10 @@ fail() { echo "BUILD-FAILED: $1" | tee -a "$LOG"; exit 2; }
 python3 harness/gen_driver.py >>"$LOG" 2>&1 || fail "gen_driver"
 PYTHONPATH=${PV_REPO:-/repo} /venv/bin/python translate/regen.py >>"$LOG" 2>&1 || fail "regen"
 
+# the extracted model is a side effect of compiling Extract.v: force it when the output is missing or older than an Api module
+if [ ! -f build/model.ml ] || [ -n "$(find coq/extract -name 'Api*.v' -newer build/model.ml 2>/dev/null)" ]; then
+  rm -f coq/extract/Extract.vo
+fi
 cd coq
 {
   echo "-R . PV"
